@@ -219,7 +219,9 @@ def finish(c, what, names=(), level=0, flags=()):
     hd = history_defects(patches)
     return {'kind': 'model', 'family': c['family'], 'pardim': c['pardim'], 'dim': c['dim'], 'patches': patches,
             'names': list(names), 'what': list(what), 'level': level, 'orients': c.get('orients'), 'order': c.get('order'),
-            'flags': list(c.get('flags', [])) + list(flags), 'history': sorted(hd)}
+            'flags': list(c.get('flags', [])) + list(flags), 'history': sorted(hd),
+            # closed rings contain distinct edges with the same end vertices ("twins" of dimension 1)
+            'twins': c['family'] not in ('ring-2', 'doubly-self-connected')}
 
 
 def witnesses():
@@ -345,7 +347,7 @@ def generate(rng, tier):
 
 def model_line(s):
     return line('c18_model', s['pardim'], s['dim'], [gen.enc_object(p) for p in s['patches']], KTOL,
-                [Word(n) for n in s['names']], [Word(w) for w in s['what']])
+                [Word(n) for n in s['names']], [Word(w) for w in s['what']], bool(s['twins']))
 
 
 # ---------------------------------------------------------------------------------------------
@@ -380,7 +382,7 @@ def build(sp, s):
     try:
         model = sm.SplineModel(s['pardim'], s['dim'])
         for o in objs:
-            model.add(o)
+            model.add(o, raise_on_twins=bool(s['twins']))
         R['model'] = model
     except Exception as e:  # noqa: BLE001
         R['err'] = Err(exc_kind(e), str(e)[:200])
